@@ -44,7 +44,7 @@ WRITE_OPS = {"write", "close"}
 
 APPLICABLE = {
     "EIO": None,            # every op
-    "ENOENT": READ_OPS,
+    "ENOENT": None,         # every op: the property enumerates FileNotFoundError at every call
     "AFTER": EFFECT_OPS,
     "TORN": WRITE_OPS,
     "ENOSPC": {"write", "makedirs", "mkdir", "open-w"},
